@@ -1,5 +1,7 @@
 package main
 
+import "fmt"
+
 // Job is one engine run (or one case-split batch of runs) of a harness.
 type Job struct {
 	H          string   // harness function in /verif/gobmc/harness
@@ -26,6 +28,100 @@ type Plan struct {
 
 var plans = map[string]Plan{}
 
+// split distributes the case splits of a job over n processes.
+func split(j Job, n int) []Job {
+	if len(j.Fixes) <= 1 || n <= 1 {
+		return []Job{j}
+	}
+	var out []Job
+	for i := 0; i < n; i++ {
+		jj := j
+		jj.Fixes = nil
+		for k := i; k < len(j.Fixes); k += n {
+			jj.Fixes = append(jj.Fixes, j.Fixes[k])
+		}
+		if len(jj.Fixes) > 0 {
+			out = append(out, jj)
+		}
+	}
+	return out
+}
+
+func padCases(maxLen int, lens []int) []string {
+	var out []string
+	add := func(l, c int) {
+		if c >= l {
+			out = append(out, fmt.Sprintf("x.len=%d,x.cap=%d", l, c))
+		}
+	}
+	if lens == nil {
+		for l := 0; l <= maxLen; l++ {
+			lens = append(lens, l)
+		}
+	}
+	for _, l := range lens {
+		padded := ((l + 1 + 31) / 32) * 32
+		seen := map[int]bool{}
+		for _, c := range []int{l, l + 1, padded - 1, padded, padded + 8} {
+			if !seen[c] {
+				seen[c] = true
+				add(l, c)
+			}
+		}
+	}
+	return out
+}
+
+func lenCases(names []string, max int) []string {
+	var out []string
+	var rec func(i int, cur string)
+	rec = func(i int, cur string) {
+		if i == len(names) {
+			out = append(out, cur)
+			return
+		}
+		for l := 0; l <= max; l++ {
+			s := fmt.Sprintf("%s.len=%d", names[i], l)
+			if cur != "" {
+				s = cur + "," + s
+			}
+			rec(i+1, s)
+		}
+	}
+	rec(0, "")
+	return out
+}
+
+func chunkCases(step int) []string {
+	var out []string
+	for c0 := 0; c0 <= 20; c0 += step {
+		for c1 := 0; c0+c1 <= 20; c1 += step {
+			for c2 := 0; c0+c1+c2 <= 20; c2 += step {
+				out = append(out, fmt.Sprintf("c0=%d,c1=%d,c2=%d", c0, c1, c2))
+			}
+		}
+	}
+	return out
+}
+
+func uniqCases() []string {
+	var out []string
+	for op := 0; op <= 3; op++ {
+		for n := 0; n <= 3; n++ {
+			out = append(out, fmt.Sprintf("op=%d,n=%d", op, n))
+		}
+	}
+	return out
+}
+
+func cat(js ...[]Job) []Job {
+	var out []Job
+	for _, j := range js {
+		out = append(out, j...)
+	}
+	return out
+}
+
 func init() {
 	plans["C17"] = Plan{
 		Quick: []Job{
@@ -33,5 +129,42 @@ func init() {
 		},
 		Bounds:  "2 functions; K=24 global steps; U=3",
 		Outside: "more than 3 functions",
+	}
+
+	boundary := []int{0, 1, 2, 30, 31, 32, 33, 62, 63, 64, 65}
+	var unpadLens []string
+	for l := 0; l <= 72; l++ {
+		unpadLens = append(unpadLens, fmt.Sprintf("x.len=%d,x.cap=%d", l, l))
+	}
+	plans["C19"] = Plan{
+		Quick: cat(
+			split(Job{H: "H_C19_PadRoundTrip", K: 2, U: 120, Fixes: padCases(0, boundary)}, 3),
+			split(Job{H: "H_C19_UnpadAny", K: 2, U: 80, Fixes: unpadLens}, 2),
+			split(Job{H: "H_C19_Prefix2", K: 2, U: 8, Fixes: lenCases([]string{"a", "b"}, 4)}, 2),
+			[]Job{{H: "H_C19_Prefix3", K: 2, U: 8, Fixes: lenCases([]string{"a", "b", "d"}, 2)}},
+			[]Job{{H: "H_C19_TrimPrefix", K: 2, U: 8, Fixes: lenCases([]string{"a", "b"}, 3)}},
+			split(Job{H: "H_C19_PrngChunks", K: 2, U: 24, Fixes: chunkCases(4)}, 2),
+		),
+		Thorough: cat(
+			split(Job{H: "H_C19_PadRoundTrip", K: 2, U: 120, Fixes: padCases(72, nil), TimeoutSec: 3000}, 6),
+			split(Job{H: "H_C19_Prefix3", K: 2, U: 8, Fixes: lenCases([]string{"a", "b", "d"}, 3), TimeoutSec: 3000}, 3),
+			split(Job{H: "H_C19_PrngChunks", K: 2, U: 24, Fixes: chunkCases(1), TimeoutSec: 3000}, 5),
+		),
+		Bounds:  "padding: message lengths 0..72 (quick: the 11 lengths around the 32/64-byte boundaries) x 5 capacities each, UnpadInPlace on arbitrary buffers of 0..72 bytes; commonprefix: 2 strings of 0..4 bytes, 3 strings of 0..2 (thorough 0..3) bytes, all byte values; prng reader: 20 bytes read in up to 4 chunks (quick: chunk sizes in steps of 4; thorough: every chunking), arbitrary 64-bit source values. Lengths are enumerated (case split), every query is over all byte contents.",
+		Outside: "longer inputs; SHA-256 / ChaCha8 internals of BuildSeededRand (the reader's chunk independence is checked over an arbitrary source instead); more than 3 strings",
+	}
+
+	plans["C20"] = Plan{
+		Quick: cat(
+			[]Job{
+				{H: "H_C20_SeekStep", K: 2, U: 4, Covers: 2},
+				{H: "H_C20_ReadStep", K: 2, U: 4},
+				{H: "H_C20_Sizer", K: 2, U: 6},
+				{H: "H_C20_Closer", K: 2, U: 6},
+			},
+			split(Job{H: "H_C20_KeyedListStep", K: 2, U: 5, MapCap: 4, Fixes: uniqCases(), QueryMs: 200000}, 8),
+		),
+		Bounds:  "ioseek: one inductive step (Seek or Read) from an arbitrary valid state, all of size/position/offset full 64-bit, buffer length 0..8; iosizer: 4 calls (Read/Write symbolic) with arbitrary (n, err), buffers <= 8 bytes; iocloser: all histories of 4 operations over {Read, Write, Close(reader), Close(writer)}; unique.KeyedList: one inductive step from an arbitrary list over 3 keys, 4 operation kinds x 0..3 symbolic values (duplicates allowed), exact and coarse cmp.",
+		Outside: "iosizer counts above 2^32-1 per call (the library drops them; buffers <= 8 bytes here); more than 3 keys; ioproxy and KeyedMap (see DESIGN.md)",
 	}
 }
